@@ -23,13 +23,21 @@ for pid in ids:
     d = os.path.join(src, 'seeded_out', pid)
     sh('git -C %s checkout -- . ' % WT)
     e = dict(os.environ, PYTHONPATH=WT + '/src')
-    demo = open(os.path.join(d, 'demo.py')).read().replace(src, WT)
-    open('/tmp/scratch/demo_%s.py' % pid, 'w').write(demo)
-    r0 = sh('cd %s && /venv/bin/python /tmp/scratch/demo_%s.py' % (WT, pid), env=e)
+    # the demo may locate the repository relative to its own path: keep the same layout inside the scratch worktree
+    dd = os.path.join(WT, 'seeded_out', pid)
+    shutil.rmtree(dd, ignore_errors=True)
+    shutil.copytree(d, dd)
+    for fn in os.listdir(dd):
+        if fn.endswith(('.py', '.sh')):
+            t = open(os.path.join(dd, fn)).read().replace(src, WT)
+            open(os.path.join(dd, fn), 'w').write(t)
+    demo_cmd = 'cd %s && /venv/bin/python %s/demo.py' % (WT, dd)
+    r0 = sh(demo_cmd, env=e)
     ap = sh('git -C %s apply %s' % (WT, os.path.join(d, 'patch.diff')))
-    r1 = sh('cd %s && /venv/bin/python /tmp/scratch/demo_%s.py' % (WT, pid), env=e)
+    r1 = sh(demo_cmd, env=e)
     missing = baseline()
     sh('git -C %s checkout -- . ' % WT)
+    shutil.rmtree(os.path.join(WT, 'seeded_out'), ignore_errors=True)
     ok = r0.returncode == 0 and ap.returncode == 0 and r1.returncode == 1 and not missing
     print(pid, 'clean rc=%d patched rc=%d apply=%d baseline-missing=%d -> %s' % (r0.returncode, r1.returncode, ap.returncode, len(missing), 'CONFIRMED' if ok else 'NOT CONFIRMED'))
     if ok:
